@@ -7,7 +7,7 @@ ROOT = os.path.dirname(os.path.dirname(os.path.abspath(__file__)))
 # id -> (technique, level text, level note, design ref)
 CHECKS = {
  "C01": ("runtime monitor: reference-oracle comparison of Sign/Verify over a structured candidate family (math/big G1 arithmetic, known discrete logs)",
-         "Every Sign output is compared with the reference point [k]H(m) and every Verify verdict with membership in the singleton {enc([k]H(m))}, over key/message/hasher triples and ~700 structured candidates each (all 384 bit flips, negation, +torsion, +G1 deltas, x+p, flag combinations, infinity variants, lengths 0..200, foreign signatures, random strings), plus identity keys. Also: shaped private scalars (powers of two and neighbours at every limb/window boundary), the candidates passed through one reused signature buffer and message buffer as the first use of the key, a hasher that reuses its output buffer driven with alternating messages, identity keys from every producer; hash-to-curve anchored on the RFC 9380 J.9.1 vectors and structural relations; 128-byte hasher outputs with a common prefix/suffix or one bit apart signed and verified back to back on one locked OS thread; hashers that announce any algorithm identifier with a wrong or right size. Held = no disagreement on the executions produced.",
+         "Every Sign output is compared with the reference point [k]H(m) and every Verify verdict with membership in the singleton {enc([k]H(m))}, over key/message/hasher triples and ~700 structured candidates each (all 384 bit flips, negation, +torsion, +G1 deltas, x+p, flag combinations, infinity variants, lengths 0..200, foreign signatures, random strings), plus identity keys. Also: shaped private scalars (powers of two and neighbours at every limb/window boundary), the candidates passed through one reused signature buffer and message buffer as the first use of the key, a hasher that reuses its output buffer driven with alternating messages, identity keys from every producer; hash-to-curve anchored on the RFC 9380 J.9.1 vectors and structural relations; 128-byte hasher outputs with a common prefix/suffix or one bit apart signed and verified back to back on one locked OS thread; hashers that announce any algorithm identifier with a wrong or right size; equal-length tags with equal CRC-32 requested back to back; Montgomery constants as private scalars. Held = no disagreement on the executions produced.",
          "Trusts the from-spec BLS12-381 reference (self-tested against the draft's generator encodings and group-law identities) and takes H(m) from the library via sk=1 (validated on-curve and in G1).", "4/C01"),
  "C02": ("runtime monitor: reference-oracle comparison (sum of k_i*H_i) plus metamorphic permutation/duplication checks of aggregate verification",
          "Verdicts of VerifyBLSSignatureOneMessage/ManyMessages are compared with the reference predicate s == enc(sum k_i*H_i(m_i)) and no identity key, over a grid of (distinct keys, distinct hashes, n) shapes hitting both internal groupings, under permutations, duplicate pairs, equal points in distinct objects, cancelling keys, and the documented error classes (also combined with an identity key in the list); every group size 1..132 in both groupings and every (#messages, #cancelling groups) grid point up to 13 messages.",
@@ -16,16 +16,16 @@ CHECKS = {
          "For every n<=7 and every subset of invalid positions, for each invalidity kind (random, swapped pair, +d/-d, three-way cancellation, torsion, malformed, wrong length, infinity, identity key), the batch result is compared index by index with individual Verify; larger n sampled at tree boundaries; input errors must give all-false; cancelling pairs at exact index distances 64..1024, hashers that announce 128 bytes and deliver another length, runs preceded by rejected calls; batches whose keys are equal (same object, second object, Jacobian form) or opposite at neighbouring, all or distant indices with errors cancelling between exactly those entries.",
          "The 2^-128 soundness error is not observable; a coefficient weakened to >~16 bits is out of reach (stated in DESIGN).", "4/C03"),
  "C04": ("runtime monitor: reference-oracle comparison of key/signature aggregation and removal (math/big scalar, G1, G2 arithmetic) with order/nesting metamorphic checks",
-         "Aggregated private keys, public keys and signatures are compared byte for byte with reference sums over multisets with duplicates, inverses, zero-sum subsets and the identity, under permutations and random nestings; Remove(Agg(A+B),B)==Agg(A); error classes checked; every list size 1..72 (300) with Jacobian-form inputs against reference prefix sums; aggregation preceded by rejected calls of the same function; returned slices overwritten and the call repeated; an identity / copied / opposite / malformed element at every position of a 270 (530) element list of signatures and of keys; wrong lengths that compensate each other; removal in two steps and from a minuend in Jacobian coordinates.",
+         "Aggregated private keys, public keys and signatures are compared byte for byte with reference sums over multisets with duplicates, inverses, zero-sum subsets and the identity, under permutations and random nestings; Remove(Agg(A+B),B)==Agg(A); error classes checked; every list size 1..72 (300) with Jacobian-form inputs against reference prefix sums; aggregation preceded by rejected calls of the same function; returned slices overwritten and the call repeated; an identity / copied / opposite / malformed element at every position of a 270 (530) element list of signatures and of keys; wrong lengths that compensate each other; removal in two steps and from a minuend in Jacobian coordinates; IsBLSSignatureIdentity over a grid of near-identity strings, BLSInvalidSignature, IdentityBLSPublicKey.",
          "Trusts the reference group arithmetic and the measured G2 coefficient order (judged only by C05).", "4/C04"),
  "C05": ("runtime monitor: accept/reject and re-encode differential against from-spec codecs (ZCash G1/G2, F_r range, ECDSA raw and X9.62) over structured byte strings",
-         "Every decoder and signature parser is run on all lengths 0..200, all flag combinations, boundary coordinates, non-residues, non-subgroup points, infinity encodings with a non-zero byte at every position, single-bit flips and random strings; acceptance must equal the reference codec's, accepted strings must re-encode identically and produced objects must round-trip; inputs replayed through one reused buffer and by 16 goroutines in parallel must reproduce the sequential verdicts; an Equals matrix over every produced object, its re-decoded twin, its Jacobian form and identity keys from every producer.",
+         "Every decoder and signature parser is run on all lengths 0..200, all flag combinations, boundary coordinates, non-residues, non-subgroup points, infinity encodings with a non-zero byte at every position, single-bit flips and random strings; acceptance must equal the reference codec's, accepted strings must re-encode identically and produced objects must round-trip; inputs replayed through one reused buffer and by 16 goroutines in parallel must reproduce the sequential verdicts; an Equals matrix over every produced object, its re-decoded twin, its Jacobian form and identity keys from every producer; Algorithm(), Size() and String() of every produced key object against its Encode().",
          "Trusts the reference codecs (self-tested against the draft's generator encodings).", "4/C05"),
  "C06": ("runtime monitor: reference Lagrange/Shamir oracle over threshold key generation and stateless/stateful reconstruction, exhaustive subsets for n<=7",
-         "Shares are checked to lie on one degree-t polynomial with matching public shares and group key; reconstruction from every qualifying subset (all subsets and small-order permutations for n<=7, limb-boundary index patterns up to n=254) through both APIs must equal enc([P(0)]H(m)); the stateful object must never return a signature after an invalid share; harness-chosen polynomials whose Lagrange-weighted terms coincide or cancel, every threshold 1..253, reconstructions preceded by rejected calls, returned signatures overwritten by the caller; grids of (n, t, index) parameters around the documented ranges for key generation, constructors and stateless reconstruction; share lengths that compensate each other; share and message buffers reused by the caller; the stateless EnoughShares over a grid; booleans returned with an error must be false; objects whose group key does not belong to the key shares never return a signature that fails under the group key.",
+         "Shares are checked to lie on one degree-t polynomial with matching public shares and group key; reconstruction from every qualifying subset (all subsets and small-order permutations for n<=7, limb-boundary index patterns up to n=254) through both APIs must equal enc([P(0)]H(m)); the stateful object must never return a signature after an invalid share; harness-chosen polynomials whose Lagrange-weighted terms coincide or cancel, every threshold 1..253, reconstructions preceded by rejected calls, returned signatures overwritten by the caller; grids of (n, t, index) parameters around the documented ranges for key generation, constructors and stateless reconstruction; share lengths that compensate each other; share and message buffers reused by the caller; the stateless EnoughShares over a grid; booleans returned with an error must be false; objects whose group key does not belong to the key shares never return a signature that fails under the group key; the dealt polynomial recovered from the shares has t+1 non-zero distinct coefficients; key sets with an identity public key share work; invalid shares whose errors cancel in the interpolation are still rejected by VerifyShare.",
          "Trusts the reference F_r interpolation and G1/G2 arithmetic.", "4/C06"),
  "C07": ("runtime monitor: deterministic Byzantine network simulator over real DKG instances with offline agreement oracle on End() results and callbacks",
-         "Real Feldman-VSS-Qual and Joint-Feldman instances are driven through seeded round-synchronous schedules with <=t Byzantine puppets drawn from a message grammar; the oracle checks identical disqualified sets, identical outcome class, identical keys, sk_i/pk_i consistency and threshold-signature validity across honest nodes; large groups (n up to 254) and consistent dealings of harness-chosen polynomials (Horner steps with equal/opposite operands, zero coefficients) fed to real receivers must be accepted with the reference-evaluated keys; all-honest runs must end with keys, a reported disqualification of the dealer must make End fail, the Joint-Feldman group key must be the sum over exactly the dealers not reported disqualified; polynomials with a root at a complainer's point with every kind of answer, delivered to a bystander in both orders; the Joint-Feldman End outcome must match the documented condition on the disqualifications the node reported; both Qual protocols over a synchronously delivering (re-entrant) network; processors overwrite the buffers handed to PrivateSend/Broadcast.",
+         "Real Feldman-VSS-Qual and Joint-Feldman instances are driven through seeded round-synchronous schedules with <=t Byzantine puppets drawn from a message grammar; the oracle checks identical disqualified sets, identical outcome class, identical keys, sk_i/pk_i consistency and threshold-signature validity across honest nodes; large groups (n up to 254) and consistent dealings of harness-chosen polynomials (Horner steps with equal/opposite operands, zero coefficients) fed to real receivers must be accepted with the reference-evaluated keys; all-honest runs must end with keys, a reported disqualification of the dealer must make End fail, the Joint-Feldman group key must be the sum over exactly the dealers not reported disqualified; polynomials with a root at a complainer's point with every kind of answer, delivered to a bystander in both orders; the Joint-Feldman End outcome must match the documented condition on the disqualifications the node reported; both Qual protocols over a synchronously delivering (re-entrant) network; processors overwrite the buffers handed to PrivateSend/Broadcast; a directed family with two cooperating Byzantine participants at the complaint-count boundary.",
          "Explores only delivery models inside the property's quantifier (same-round reliable broadcast, FIFO per sender); liveness not claimed.", "4/C07-C08, App. A"),
  "C08": ("runtime monitor: same simulator; fairness oracle on Disqualify/FlagMisbehavior callbacks, converse oracle from delivered-message ground truth, plain-VSS delivery-order grid",
          "No honest node may be blamed by an honest node; a dealer whose delivered messages meet one of the four stated causes must be disqualified everywhere; plain Feldman VSS must fail End() for every invalid vector kind and share mismatch under every delivery order; vectors whose points carry small-order components in the kernel of the receiver's evaluation and of a second linear form, and polynomials with a root at the receiver's point, must never yield keys; the honest plain-VSS dealer itself must end with keys matching what it sent.",
@@ -34,16 +34,16 @@ CHECKS = {
          "Each exported function is driven with nil/empty/short/long/huge byte slices, boundary integers, undefined enums, malformed lists and random DKG message histories; any panic, fatal error, sanitizer report, timeout or undocumented error class is a violation; sanitizer liveness is proven by canaries; a family of well-formed lists of every size 1..260 runs each list-taking function to the end of its buffers; lists of tens of thousands of distinct keys and messages; lists made of identity signatures, identity keys and per-message cancelling key pairs for every size 1..40; out-of-range DKG indices (also congruent to legal ones modulo 256 / 2^32) must produce an error.",
          "ASan sees C accesses and Go-heap red zones only; reads inside a Go allocation's capacity are invisible.", "4/C09"),
  "C10": ("runtime monitor: executable state-machine model of the DKG API plus twin-run equivalence, exhaustive over abstract call sequences up to a bound",
-         "All abstract call sequences up to length 4 (quick) / 5 (thorough) and random longer ones are run on the three protocols in both roles; each call's error class and Running() must match the model, and dropping the rejected calls must not change emitted messages, callbacks or End() results (twin run); directed protocol-shaped sequences built from the companions' real messages; a grid of constructor parameters around the documented ranges.",
+         "All abstract call sequences up to length 4 (quick) / 5 (thorough) and random longer ones are run on the three protocols in both roles; each call's error class and Running() must match the model, and dropping the rejected calls must not change emitted messages, callbacks or End() results (twin run); directed protocol-shaped sequences built from the companions' real messages; a grid of constructor parameters around the documented ranges; what an accepted ForceDisqualify does (Qual: dealer => End fails, anybody else => no effect; Joint-Feldman: the keys of a protocol-made disqualification).",
          "Restart after End is outside the quantifier; payload concretisation is pseudo-random per symbol.", "4/C10, App. C"),
  "C11": ("runtime monitor: reference ECDSA verification oracle (math/big, both curves) over library-made and crafted signatures and their mutations",
-         "Verify, Sign and SignatureFormatCheck are compared with textbook ECDSA on P-256 and secp256k1 for all supported hashers: twins, r/s in {0,n,n+1,2^256-1}, all 512 bit flips, swaps, lengths 0..130, other message/key/curve, short and nil hashers, hashers announcing any algorithm identifier with sizes on both sides of 32 bytes, candidates passed through one reused buffer.",
+         "Verify, Sign and SignatureFormatCheck are compared with textbook ECDSA on P-256 and secp256k1 for all supported hashers: twins, r/s in {0,n,n+1,2^256-1}, all 512 bit flips, swaps, lengths 0..130, other message/key/curve, short and nil hashers, hashers announcing any algorithm identifier with sizes on both sides of 32 bytes, candidates passed through one reused buffer, crafted valid signatures with s of every byte shape.",
          "Reference self-tested against crypto/ecdsa on P-256 and known secp256k1 constants.", "4/C11"),
  "C12": ("runtime monitor: reference HKDF/KeyGen oracle and reference scalar multiplication for public keys",
          "GeneratePrivateKey is compared with an independent HKDF-SHA256 derivation for every seed length 0..300 on three algorithms; public keys of generated, decoded and aggregated keys are compared with reference [d]G; determinism and cache stability checked; shaped scalars, aggregated lists with duplicate/related keys and every cached-subset, a 16-goroutine replay of key generation against sequentially recorded outputs, and aggregates of aggregates (three levels, warm and cold public-key caches).",
          "Reference HKDF self-tested on RFC 5869 and against crypto/hkdf.", "4/C12"),
  "C13": ("runtime monitor: from-spec Keccak/SHA-2/KMAC oracles plus a sequential hasher model over operation histories, in default and purego builds",
-         "Digests for every length 0..4*rate, every 2-split up to 2*rate+2, random k-splits, all alignments, reused and fresh objects, and random ComputeHash/Write/SumHash/Reset histories are compared with reference digests of the modelled byte stream; KMAC over all key lengths 16..400, customizers and output sizes; families of related KMAC instances alive together (same key||customizer concatenation, prefixes, more than any bounded table holds) and a 16-goroutine replay of constructors and one-shot helpers; structured message content (zero / sparse / periodic lanes, one non-zero byte at every position, small integers) through every way of hashing in both builds; KMAC key, customizer and output lengths at which the SP 800-185 length encodings grow by a byte (32, 8192, 2097152 bytes +-1).",
+         "Digests for every length 0..4*rate, every 2-split up to 2*rate+2, random k-splits, all alignments, reused and fresh objects, and random ComputeHash/Write/SumHash/Reset histories are compared with reference digests of the modelled byte stream; KMAC over all key lengths 16..400, customizers and output sizes; families of related KMAC instances alive together (same key||customizer concatenation, prefixes, more than any bounded table holds) and a 16-goroutine replay of constructors and one-shot helpers; structured message content (zero / sparse / periodic lanes, one non-zero byte at every position, small integers) through every way of hashing in both builds; KMAC key, customizer and output lengths at which the SP 800-185 length encodings grow by a byte (32, 8192, 2097152 bytes +-1); KMAC instances whose keys / customizers agree in length and CRC-32 or whose customizer lengths agree modulo 256.",
          "References self-tested against NIST vectors and the standard library.", "4/C13"),
  "C14": ("runtime monitor: reference ChaCha20 keystream oracle and store/restore continuation check at every byte offset",
          "Read output under many read-size sequences is compared with the RFC 8439 keystream; at every offset the state is stored, restored and both generators continued with an identical script of Read/UintN/Permutation/Shuffle/Samples; Store layout and bad lengths checked; single reads of 4 KiB..16 MiB with the stored counter after each, several checkpoints of one generator restored later, states wiped by the caller.",
